@@ -17,6 +17,7 @@ var verifHarnesses = map[string]any{
 	"Verif_C08_History":         Verif_C08_History,
 	"Verif_C04_Deterministic":   Verif_C04_Deterministic,
 	"Verif_C07_Many":            Verif_C07_Many,
+	"Verif_C07_ManyTwice":       Verif_C07_ManyTwice,
 	"Verif_C02_ManyFault":       Verif_C02_ManyFault,
 	"Verif_C06_ManyDispatch":    Verif_C06_ManyDispatch,
 	"Verif_C05_ManyAlone":       Verif_C05_ManyAlone,
